@@ -704,6 +704,13 @@ def execute(plan: Dict[str, Any]) -> Dict[str, Any]:
                 try:
                     got = _call(cfn, built.module, ca, op["mode"], op["tseed"] % 1000)
                 except Exception as e:
+                    if type(e).__name__ == "FailOnRecompileLimitHit":
+                        # torch's documented behaviour under fullgraph=True once the recompile limit
+                        # is reached (instead of the eager fallback): nothing the library decides
+                        outcomes.append("limit_hard_fail")
+                        probe("outcome:limit_hard_fail")
+                        res["notes"].append("recompile limit reached under fullgraph=True: torch raises instead of falling back")
+                        continue
                     raise Violation("compiled_runs", _exc_culprit(e, kn),
                                     f"{type(e).__name__}: {str(e)[:600]} {where} call {op}")
                 after = (counters["stats"]["unique_graphs"], counters["frames"]["total"], counters["frames"]["ok"])
